@@ -74,10 +74,17 @@ package remote
 //@   modifies nothing
 //@   ensures result != nil && !old(result in fccstopped)
 
-//@ func (*FlowControlMap).Delete props C11
+//@ func (*FlowControlMap).Delete props C11, C05
 //@   requires [typed] forall k ref :: {smhas(&f.data, k)} smhas(&f.data, k) ==> typeis(k, "string") && smget(&f.data, k) != nil
 //@   modifies smap(&f.data)[box(name)], fccstopped
 //@   ensures [removed] !smhas(&f.data, box(name))
 //@   ensures [stopped] old(smhas(&f.data, box(name))) ==> (old(smget(&f.data, box(name))) in fccstopped)
 //@   ensures [stops_only_it] forall x ref :: {x in fccstopped} (x in fccstopped) && !old(x in fccstopped) ==> old(smhas(&f.data, box(name))) && x == old(smget(&f.data, box(name)))
 //@   ensures [stop_monotone] forall x ref :: {x in fccstopped} old(x in fccstopped) ==> (x in fccstopped)
+
+//@ func (*tokenBucketWrapper).Resize props C09
+//@   requires [wf] m.FlowControl != nil
+//@   modifies m.reserve, m.tokens, m.tokenBatch, m.qps, m.burst, fcsize[m.FlowControl], fcburst[m.FlowControl]
+//@   ensures [limit_recorded] m.qps == qps
+//@   ensures [outage_keeps_local] old(m.serverUnavailable) != 0 ==> fcsize == old(fcsize) && fcburst == old(fcburst)
+//@   ensures [healthy_resizes] old(m.serverUnavailable) == 0 ==> fcsize[m.FlowControl] == qps && fcburst[m.FlowControl] == burst
